@@ -322,10 +322,10 @@ IMPLICIT_SITES = [
      "apply_config calls load_value([]) -> 'list' object has no attribute 'strip'",
      {"shape": "basic", "entry": "parse_args", "input": ["--cfg=--"]}),
     ("_typehints.adapt_typehints", "builtins.RecursionError",
-     "a self-referential YAML alias (&x [*x]) under type Any makes adapt_classes_any / adapt_typehints recurse without bound",
+     "[alias] a self-referential YAML alias (&x [*x]) under type Any makes adapt_classes_any / adapt_typehints recurse without bound",
      {"shape": "basic", "entry": "parse_args", "input": ["--any=&x [*x]"]}),
     ("_namespace.recreate_branches", "builtins.RecursionError",
-     "a self-referential YAML alias anywhere in a config makes Namespace.clone() -> recreate_branches recurse without bound",
+     "[alias] a self-referential YAML alias anywhere in a config makes Namespace.clone() -> recreate_branches recurse without bound",
      {"shape": "plain", "entry": "parse_args", "input": ["--cfg=rec.yaml"]}),
     ("_typehints.adapt_typehints", AE,
      "the append key `<list of dataclass>+` in a config object/text: merge_config -> apply_appends -> adapt_typehints -> "
@@ -348,6 +348,40 @@ IMPLICIT_SITES = [
     ("_actions._ActionPrintConfig.print_config_if_requested", "yaml.representer.RepresenterError",
      "--print_config after `--any.k=v` (type Any): the NestedArg tuple is stored as the value and cannot be dumped",
      {"shape": "basic", "entry": "parse_args", "input": ["--any.firstweekday=[1, 2]", "--print_config"]}),
+    ("_core.ArgumentParser._check_value_key", "builtins.AssertionError",
+     "`assert isinstance(vals, list)` for an option with nargs='+' and choices that a config gives a scalar (argv always delivers a list)",
+     {"shape": "plain", "entry": "parse_string", "input": "mc: x\n"}),
+    ("_loaders_dumpers._has_reference_cycle", "builtins.RecursionError",
+     "[deep] a well-formed value nested a few thousand levels deep: the recursive walk over the loaded value exhausts the stack",
+     {"shape": "basic", "entry": "parse_args", "input": ["--any=" + "[" * 3000 + "]" * 3000]}),
+    ("_namespace.recreate_branches", "builtins.RecursionError",
+     "[deep] a config OBJECT nested a few thousand levels deep: Namespace.clone() -> recreate_branches exhausts the stack",
+     {"shape": "basic", "entry": "parse_object", "input": {"a": {"$": "deep", "n": 3000}}}),
+    ("_util.Path.get_content", AE,
+     "the path '-' (read the config from stdin) in a process whose stdin is closed (sys.stdin is None): get_cached_stdin calls "
+     "sys.stdin.read()",
+     {"shape": "basic", "entry": "parse_path", "input": "-", "stdin": "none"}),
+    ("_actions._ActionSubCommands.handle_subcommands", AE,
+     "[subcommand] a config names a subcommand that is not declared (--cfg={subcommand: zzz}): action._name_parser_map.get(s) is None "
+     "-> 'NoneType' object has no attribute '_subparsers'",
+     {"shape": "subcommands", "entry": "parse_args", "input": ["--cfg={subcommand: zzz}"]}),
+    ("_core.ArgumentParser.merge_config", AE,
+     "[subcommand] a config puts a scalar under a subcommand key (fit: 5): cfg.get(key).clone() -> 'int' object has no attribute 'clone'",
+     {"shape": "subcommands", "entry": "parse_string", "input": "subcommand: fit\nfit: 5\n"}),
+    ("_actions._ActionSubCommands.__call__", AE,
+     "[subcommand] --cfg puts a list under a subcommand key and the subcommand is then given on the command line",
+     {"shape": "subcommands", "entry": "parse_args", "input": ["--cfg={fit: [1]}", "fit"]}),
+    ("_core.ArgumentParser._check_value_key", AE,
+     "[subcommand] a config puts a scalar under the key of ANOTHER subcommand than the selected one: validate -> subparser.validate(value)",
+     {"shape": "subcommands", "entry": "parse_args", "input": ["--cfg={test: x, fit: {p: 1}}"]}),
+    ("_typehints.ActionTypeHint.__call__", AE,
+     "type Any holding a class_path-shaped mapping with init_args that a later value for the same option replaces by another "
+     "class_path: discard_init_args_on_class_path_change / prev_val.init_args assume a subclass-typed option",
+     {"shape": "basic", "entry": "parse_args",
+      "input": ["--any={class_path: calendar.Calendar, init_args: {firstweekday: 1}}", "--any={class_path: nomod.X}"]}),
+    ("_actions._ActionPrintConfig.__call__", "builtins.IndexError",
+     "argparse hands `--print_config=--` to the action as the empty list: value[0] -> list index out of range",
+     {"shape": "basic", "entry": "parse_args", "input": ["--print_config=--"]}),
 ]
 
 EXTRA_ROOTS = []
@@ -389,14 +423,20 @@ FINDING_KEYS = {
     14: "overflow-error",
     15: "cfg-key-in-config",
     16: "nested-key-on-any-print-config",
+    17: "nargs-choices-scalar",
+    18: "deep-nesting-recursion",
+    19: "closed-stdin-dash",
+    20: "subcommand-value-not-mapping",
+    21: "any-class-path-override",
+    22: "print-config-value-empty",
 }
 # key -> [(function, class or superclass, kind prefix, modes)]; modes: "t" = only when exit_on_error=True, "f" = only
 # when False, "tf" = both. A site is a finding site only if it ESCAPES an entry point and its class is not the
 # allowed channel of that mode; everything else that escapes is an alarm.
 FINDING_SITES = {
     "cfg-value-not-str": [("_loaders_dumpers.load_value", AE, "implicit", "tf")],
-    "recursive-yaml-alias": [("_typehints.adapt_typehints", "builtins.RecursionError", "implicit", "tf"),
-                             ("_namespace.recreate_branches", "builtins.RecursionError", "implicit", "tf")],
+    "recursive-yaml-alias": [("_typehints.adapt_typehints", "builtins.RecursionError", "implicit: [alias]", "tf"),
+                             ("_namespace.recreate_branches", "builtins.RecursionError", "implicit: [alias]", "tf")],
     "config-content-unreadable": [("_util.Path.get_content", OS, "ext:open", "tf"), ("_util.Path.get_content", VE, "ext:open", "tf"),
                                   ("_util.Path.get_content", OS, "ext:.read", "tf"), ("_util.Path.get_content", VE, "ext:.read", "tf")],
     "path-nul-byte": [("_util.Path.__init__", VE, "ext:os.", "tf")],
@@ -408,6 +448,16 @@ FINDING_SITES = {
     "nested-parser-argument-error": [("_core.ArgumentParser.error", ARGERR, "raise", "t")],
     "usage-formatting-reraises": [("_core.ArgumentParser.print_usage", "builtins.Exception", "relabel:", "t")],
     "append-without-parser-context": [("_typehints.adapt_typehints", AE, "implicit", "tf")],
+    "nargs-choices-scalar": [("_core.ArgumentParser._check_value_key", "builtins.AssertionError", "implicit", "tf")],
+    "deep-nesting-recursion": [("_loaders_dumpers._has_reference_cycle", "builtins.RecursionError", "implicit: [deep]", "tf"),
+                               ("_namespace.recreate_branches", "builtins.RecursionError", "implicit: [deep]", "tf")],
+    "closed-stdin-dash": [("_util.Path.get_content", AE, "implicit", "tf")],
+    "subcommand-value-not-mapping": [("_actions._ActionSubCommands.handle_subcommands", AE, "implicit: [subcommand]", "tf"),
+                                     ("_core.ArgumentParser.merge_config", AE, "implicit: [subcommand]", "tf"),
+                                     ("_actions._ActionSubCommands.__call__", AE, "implicit: [subcommand]", "tf"),
+                                     ("_core.ArgumentParser._check_value_key", AE, "implicit: [subcommand]", "tf")],
+    "any-class-path-override": [("_typehints.ActionTypeHint.__call__", AE, "implicit", "tf")],
+    "print-config-value-empty": [("_actions._ActionPrintConfig.__call__", "builtins.IndexError", "implicit", "tf")],
     "list-option-given-mapping": [("_typehints.ActionTypeHint._check_type", "builtins.RuntimeError", "implicit", "tf")],
     "overflow-error": [("_typehints.adapt_typehints", "builtins.OverflowError", "implicit", "tf"),
                        ("_core.ArgumentParser._check_value_key", "builtins.OverflowError", "implicit", "tf")],
